@@ -86,7 +86,7 @@ def model_line(idx, content, error=None, version=None, mode=None, mask=None, enc
             pass
     ps = ','.join(f'{hexs(b)}:{opt(m)}:{enc}' for b, m, enc in parts)
     return (f'enc id={idx} parts={ps} error={opt(norm_error(error))} version={opt(norm_version(version))} '
-            f'mask={opt(mask)} eci={int(bool(eci))} micro={"-" if micro is None else int(bool(micro))} '
+            f'gmode={opt(norm_mode(mode))} mask={opt(mask)} eci={int(bool(eci))} micro={"-" if micro is None else int(bool(micro))} '
             f'boost={int(bool(boost_error))} canon={",".join(sorted(set(canon)))}')
 
 
